@@ -311,11 +311,70 @@ def run(ctx):
         else:
             st["agreed"] += 1
             st["hist"]["where_expr"] += 1
+    # WHERE with the SAME expression in two comparisons (a range written with AND, BETWEEN, an alternative with OR) and with a
+    # second expression: every comparison is evaluated on its own
+    w2 = []
+    for _ in range(50 if ctx.tier == "quick" else 2500):
+        e = gen_expr(rng, rng.randint(1, 3))
+        if e[0] != "bin":
+            continue
+        lo, hi = sorted(rng.sample([-5, 0, 1, 7, 10, 14, 20, 1000, 2048, 4097, 9000], 2))
+        e2 = gen_expr(rng, rng.randint(1, 2))
+        # a bare literal as the whole left-hand side (`where 1024 < 9000`) is a constant condition, not a condition on an entry's
+        # value: kept out (the comparison is typed by its left operand, and a literal alone is text)
+        bare = lambda x: x[0] == "num" or (x[0] == "neg" and x[1][0] == "num")
+        if bare(e2):
+            e2 = ("col", "size")
+        if bare(e[2]):
+            e = ("bin", e[1], ("col", "hardlinks"), e[3])
+        w2.append((e, e2, lo, hi, rng.choice(["and", "between", "not between", "or", "two", "sub"])))
+
+    def w2one(j):
+        e, e2, lo, hi, kind = j
+        t = render(e, rng)
+        t2 = render(e2, rng)
+        if kind == "and":
+            cond = "%s > %d and %s <= %d" % (t, lo, t, hi)
+        elif kind == "between":
+            cond = "%s between %d and %d" % (t, lo, hi)
+        elif kind == "not between":
+            cond = "%s not between %d and %d" % (t, lo, hi)
+        elif kind == "or":
+            cond = "%s < %d or %s >= %d" % (t, lo, t, hi)
+        elif kind == "two":
+            cond = "%s >= %d and %s < %d" % (t, lo, t2, hi)
+        else:            # the second comparison is on a sub-expression / operand of the first
+            sub = render(e[2], rng)
+            cond = "%s >= %d and %s < %d" % (t, lo, sub, hi)
+        rows, r = qlib.select(ctx.impl, "name", "from t where " + cond, cwd=base)
+        return j, cond, rows, r
+
+    for (e, e2, lo, hi, kind), cond, rows, r in pmap(w2one, w2):
+        st["evaluations"] += 1
+        case = {"query": r["query"]}
+        if rows is None or r["status"] != 0:
+            ctx.violation("impl-violates-spec", "status %s stderr %r" % (r["status"], r["stderr"][:160]), input=case)
+            continue
+        exp = set()
+        for ent in ents:
+            v = to_float_value(e, ent)[1]
+            v2 = to_float_value(e2, ent)[1]
+            vs = to_float_value(e[2], ent)[1]
+            t_ = {"and": v > lo and v <= hi, "between": v >= lo and v <= hi, "not between": v < lo or v > hi, "or": v < lo or v >= hi,        # NOT BETWEEN is `< lo or > hi` (a NaN satisfies neither form)
+                  "two": v >= lo and v2 < hi, "sub": v >= lo and vs < hi}[kind]
+            if t_:
+                exp.add(ent["name"])
+        got = {x[0] for x in rows}
+        if got != exp:
+            ctx.violation("impl-violates-spec", "`where %s` returns %s, the expressions' values give %s" % (cond, sorted(got), sorted(exp)), input=case)
+        else:
+            st["agreed"] += 1
+            st["hist"]["where_two_comparisons_" + kind.replace(" ", "_")] += 1
     from .common import replay_generic_known
     replay_generic_known(ctx, 'C15')
     ctx.coverage.update(
         evaluations=st["evaluations"], distinct_nontrivial=len(st["distinct"]), traces_validated_against_impl=st["agreed"],
-        rule="arithmetic expressions to depth 4 over integer literals, size, hardlinks, length(name), unary minus on literals/columns/calls, operators + - * / % and their word aliases, minimal and redundant brackets in both styles x select lists of 1-5 expressions (deliberately including pairs that differ only in the operator or in the bracket placement) on a tree with sizes 0, 7, 10, 1000, 4097, 2^33+1: every column must equal the binary64 value of its own expression (precedence, left associativity, brackets, unary minus), must be the same when selected alone, and must equal the model pipeline (Lexer -> Parser -> Eval with the regenerated operator table); WHERE on an expression returns exactly the entries whose value satisfies it. non-trivial = a select list of at least two expressions",
+        rule="arithmetic expressions to depth 4 over integer literals, size, hardlinks, length(name), unary minus on literals/columns/calls, operators + - * / % and their word aliases, minimal and redundant brackets in both styles x select lists of 1-5 expressions (deliberately including pairs that differ only in the operator or in the bracket placement) on a tree with sizes 0, 7, 10, 1000, 4097, 2^33+1: every column must equal the binary64 value of its own expression (precedence, left associativity, brackets, unary minus), must be the same when selected alone, and must equal the model pipeline (Lexer -> Parser -> Eval with the regenerated operator table); WHERE on an expression returns exactly the entries whose value satisfies it, also when the same expression (or one of its operands) occurs in two comparisons joined by AND / OR or written as BETWEEN / NOT BETWEEN. non-trivial = a select list of at least two expressions",
         samples=st["samples"], distribution=dict(st["hist"]))
     return ctx.finish(trusted=["binary64 arithmetic: Python floats (oracle) and Coq primitive floats (model) are IEEE 754 like Rust's f64; f64 `%` is C fmod, computed exactly in the model (lib/F64.fmod) and by math.fmod in the oracle",
                                "Rust's float Display is reproduced by lib/F64.show_f64 (validated against the real code) and by the oracle's positional shortest repr"])
